@@ -260,7 +260,7 @@ func (g *gctx) defineDV(f dvFields, genuine bool) string {
 
 func (g *gctx) defineLCA() string {
 	r := g.r
-	atk := []string{"lunatic", "lunatic", "equiv", "equiv", "amnesia", "same", "lunatic", "lunaticbig"}[r.Intn(8)]
+	atk := []string{"lunatic", "lunatic", "equiv", "equiv", "amnesia", "same", "lunatic", "lunaticbig", "forge"}[r.Intn(9)]
 	mut := "none"
 	if r.Intn(5) < 2 { // every single-field perturbation of the evidence
 		muts := []string{"badsig", "badsiglast", "fewsig", "flagabs", "flagnil", "sigaddr", "sigaddrnil", "sigaddr2", "cmheight",
@@ -296,7 +296,7 @@ func (g *gctx) defineLCA() string {
 	// be admitted when fresh; "fwd" = genuine forward lunatic attack (conflicting block above the
 	// node's chain whose time does not exceed the latest block's)
 	gen := "0"
-	if mut == "none" && atk != "same" {
+	if mut == "none" && atk != "same" && atk != "forge" {
 		gen = "1"
 		for _, v := range g.blk(common).vals { // the attackers must hold keys of the common set
 			if v.addr != v.pk {
@@ -497,14 +497,20 @@ func genCase(r *rand.Rand, long bool) core.Case {
 			g.unseenBlock()
 		case k < 15:
 			g.peNear()
-		case k < 18: // small evidence through the consensus buffer
+		case k < 18: // small / same-hash evidence through the consensus buffer
 			h := g.curH + 1
 			if h > N {
 				h = g.curH
 			}
-			if id := g.defineDV(g.smallDV(h), true); id != "" {
+			f := g.smallDV(h)
+			if r.Intn(2) == 0 {
+				f = g.sameHashDV(h)
+			}
+			if id := g.defineDV(f, true); id != "" {
 				g.do(fmt.Sprintf("report e=%s swap=%d", id, r.Intn(2)))
 			}
+		case k < 25:
+			g.do("rpcbroadcast e=" + g.someEvidence())
 		case k < 32:
 			g.do("add e=" + g.someEvidence())
 		case k < 42:
@@ -645,11 +651,11 @@ func genLCASweep(r *rand.Rand) core.Case {
 	}
 	g.do(fmt.Sprintf("init h=%d", N))
 	g.curH, g.storeH = N, N
-	atks := []string{"lunatic", "equiv", "amnesia"}
+	atks := []string{"lunatic", "equiv", "amnesia", "forge"}
 	perm := r.Perm(len(lcaMuts))
 	for _, pi := range perm {
 		mut := lcaMuts[pi]
-		atk := atks[r.Intn(3)]
+		atk := atks[r.Intn(4)]
 		common := 1 + r.Int63n(4)
 		cfh := common
 		if atk == "lunatic" {
@@ -657,7 +663,7 @@ func genLCASweep(r *rand.Rand) core.Case {
 		}
 		b := g.blk(common)
 		gen := "0"
-		if mut == "none" {
+		if mut == "none" && atk != "forge" {
 			gen = "1"
 		}
 		id := g.newID("l")
@@ -668,11 +674,13 @@ func genLCASweep(r *rand.Rand) core.Case {
 		}
 		g.ids = append(g.ids, id)
 		mutHist["sweep."+atk+"."+mut]++
-		switch r.Intn(4) {
+		switch r.Intn(5) {
 		case 0:
 			g.do("check l=" + id)
 		case 1:
 			g.do("recv l=" + id)
+		case 2, 3:
+			g.do("rpcbroadcast e=" + id)
 		default:
 			g.do("add e=" + id)
 		}
@@ -720,8 +728,11 @@ func genBacklog(r *rand.Rand) core.Case {
 				}
 			case 2:
 				f := g.genuineDV(g.curH)
-				if r.Intn(2) == 0 {
+				switch r.Intn(3) {
+				case 0:
 					f = g.smallDV(g.curH)
+				case 1:
+					f = g.sameHashDV(g.curH)
 				}
 				if id := g.defineDV(f, true); id != "" {
 					g.do(fmt.Sprintf("report e=%s swap=%d", id, r.Intn(2)))
@@ -824,6 +835,20 @@ func (g *gctx) smallDV(h int64) dvFields {
 	return f
 }
 
+// sameHashDV: conflicting votes for the same block hash with different part-set headers (or a nil
+// vote against a block): only BlockID.Key() orders them
+func (g *gctx) sameHashDV(h int64) dvFields {
+	f := g.genuineDV(h)
+	hsh := int64(g.r.Intn(3))
+	p1 := int64(g.r.Intn(3))
+	p2 := p1 + 1 + int64(g.r.Intn(3-int(p1)))
+	f.abid, f.bbid = 256+4*hsh+p1, 256+4*hsh+p2
+	if g.r.Intn(5) == 0 {
+		f.abid = -1
+	}
+	return f
+}
+
 // concurrentReport: an Update during which consensus reports a new pair; an older pair is put in the
 // buffer first so that the flush has store lookups to do
 func (g *gctx) concurrentReport() {
@@ -913,7 +938,7 @@ func hostileLine(r *rand.Rand, g *gctx) string {
 	l := []string{
 		"frobnicate", "add", "add e=nosuch", "check l=nosuch,alsonot", "check", "update h=x ev=-", "update ev=-",
 		fmt.Sprintf("update h=%d ev=-", g.N+5), "grow h=0", fmt.Sprintf("grow h=%d", g.N+1), "grow h=y", "init h=1",
-		"blk t=5 vals=k1:1:k1", "blk h=1 t=5 vals=0badc0de:1:0badc0de cr=0 cf=2 hash=00000000 d=zz", "report e=nosuch swap=0", "report e=d1", "pe", "pe max=z", "restart now", "recv", "recv l=nosuch", "prep e=nosuch ph=3", "prep e=d1 ph=q",
+		"blk t=5 vals=k1:1:k1", "blk h=1 t=5 vals=0badc0de:1:0badc0de cr=0 cf=2 hash=00000000 d=zz", "report e=nosuch swap=0", "report e=d1", "pe", "pe max=z", "restart now", "recv", "recv l=nosuch", "rpcbroadcast", "rpcbroadcast e=nosuch", "prep e=nosuch ph=3", "prep e=d1 ph=q",
 		"ev id=q kind=dv", "ev id=q kind=zz hash=00 sz=1 vb=1 tvp=1 t=1", "update h=1 ev=nosuch", "report e=d1 swap=2",
 	}
 	return l[r.Intn(len(l))]
